@@ -27,6 +27,7 @@ Enc(ty, v) ==
     [] t = "ShortPrefixedByteArray"  -> EncShortPrefixed(v)
     [] t = "VarIntPrefixedByteArray" -> EncVarIntPrefixed(v)
     [] t = "TrailingByteArray"   -> EncTrailing(v)
+    [] t = "Raw"                 -> v             \* opaque pre-encoded bytes (NBT blobs)
     [] t = "UUID"                -> v.by          \* v = [by |-> 16 bytes, txt |-> the 8-4-4-4-12 text]
     [] t = "Angle"               -> AngleModel(v)
     [] t = "FixedPoint"          -> FixedModel(Width(ty[2]), v[1], v[2])
